@@ -2,6 +2,7 @@ package sym
 
 import (
 	"fmt"
+	"go/types"
 
 	"golang.org/x/tools/go/ssa"
 )
@@ -127,3 +128,72 @@ func permuteKeys(m *Machine, fr *frame, keys []Value) []Value {
 	}
 	return append(out, rest[0])
 }
+
+func init() {
+	// sync/atomic.Value: single actor, so a plain cell
+	av := func(a []Value) Struct { return (*(a[0].(*Value))).(Struct) }
+	reg("(*sync/atomic.Value).Load", func(m *Machine, fr *frame, a []Value) Value { return av(a)[0] })
+	reg("(*sync/atomic.Value).Store", func(m *Machine, fr *frame, a []Value) Value {
+		if v := a[1].(Iface); v.T == nil {
+			m.rtPanic(fr, T.True, "sync/atomic: store of nil value into Value")
+		}
+		av(a)[0] = a[1]
+		return nil
+	})
+	reg("(*sync/atomic.Value).Swap", func(m *Machine, fr *frame, a []Value) Value {
+		old := av(a)[0]
+		av(a)[0] = a[1]
+		return old
+	})
+	reg("(*sync/atomic.Value).CompareAndSwap", func(m *Machine, fr *frame, a []Value) Value {
+		cur := av(a)[0].(Iface)
+		old := a[1].(Iface)
+		eq := false
+		if cur.T == nil || old.T == nil {
+			eq = cur.T == nil && old.T == nil
+		} else {
+			eq = m.valEq(nil, cur, old).IsTrue()
+		}
+		if eq {
+			av(a)[0] = a[2]
+		}
+		return Bool(eq)
+	})
+	reg("github.com/google/uuid.New", func(m *Machine, fr *frame, a []Value) Value {
+		m.uuidCount++
+		u := make(Array, 16)
+		for i := range u {
+			u[i] = BV(8, 0)
+		}
+		u[15] = BV(8, uint64(m.uuidCount))
+		u[14] = BV(8, uint64(m.uuidCount>>8))
+		return u
+	})
+	reg("time.Now", func(m *Machine, fr *frame, a []Value) Value {
+		// a fixed instant: harnesses that need a clock inject their own
+		return zero(fr.fn.Signature.Results().At(0).Type())
+	})
+	reg("time.runtimeNano", func(m *Machine, fr *frame, a []Value) Value { return BV(64, 1) })
+}
+
+func init() {
+	// forward.(*DestHandler).stop: cancel the context; the wait for the goroutine (which the
+	// engine does not run) is dropped
+	reg("(*"+modPathConst+"/internal/forward.DestHandler).stop", func(m *Machine, fr *frame, a []Value) Value {
+		h := a[0].(*Value)
+		if h == nil {
+			m.rtPanic(fr, T.True, "invalid memory address or nil pointer dereference")
+		}
+		st := (*h).(Struct)
+		ht := fr.fn.Signature.Recv().Type()
+		hs := deref(ht).Underlying().(*types.Struct)
+		for i := 0; i < hs.NumFields(); i++ {
+			if hs.Field(i).Name() == "ctxCancel" {
+				m.callValue(fr, st[i], nil)
+			}
+		}
+		return nil
+	})
+}
+
+const modPathConst = "github.com/bluenviron/mediamtx"
